@@ -67,6 +67,11 @@ CHECKS["C07"] = dict(cat="exploration", technique="exhaustive enumeration of C e
                   "literals x suffixes, bit-fields (13 widths x signedness, _Bool), 46 initializer shapes x {static, automatic, run-time valued}, control-flow skeletons, switch label sets, pointer arithmetic by every index type, variadic calls and struct copies of 19 sizes "
                   "must print the same _Generic type tag and value under c2m -ei/-eg -O2/-eb (thorough: all of -ei, -eg -O0..-O3, -el, -eb) as the program built by gcc.",
              note="cases for which gcc prints a UB-relevant diagnostic or the UBSan-instrumented reference reports undefined behaviour are dropped together with their constant/run-time twin; programs stay inside these grammar families (no VLAs, complex, atomics, wide strings, library calls beyond printf/memset)", ref="§3 C07")
+CHECKS["C20"] = dict(cat="exploration", technique="exhaustive enumeration of MIR program families; each program translated by the real MIR_module2c, compiled by gcc and run on its whole input grid against MIR_interp",
+             text="Every program of the C01 families (integer/fp chains, overflow insns, memory, CFGs with switch/jmpi, calls, block arguments, loops) and of data-section (all sections of up to 3 items over 15 item kinds), constant (40 boundary immediates x 3 uses) and multi-function families "
+                  "is translated by MIR_module2c in a watchdogged child (non-termination and crashes are attributed to the program), batches of 400 translations are compiled by gcc (a rejected translation is attributed by compiling it alone), and result, buffer bytes and external-call log of the compiled translation "
+                  "must equal those of MIR_interp on every input of the program's grid (quick: gcc -O1; thorough: -O0 and -O2).",
+             note="gcc -fwrapv -fno-strict-aliasing is the C compiler; (program,input) pairs with behaviour MIR.md leaves unspecified are skipped via refinterp; multiple-result functions, expr data, lref data and calls passing blocks to native C functions are outside the enumerated families", ref="§3 C20")
 NOT_YET = {}
 def main():
     props = [json.loads(l) for l in open(os.path.join(VERIF, "properties.jsonl"))]
